@@ -158,6 +158,15 @@ def programs(prep):
                                   aliases={"TB.q": "TS.q", "TM.q": "TS.q"}))
     # hunt C17: several declarators under one @tracked; objects that are still alive when the run ends (held by a static, in a cycle of
     # tracked-field objects); a @tracked static field; a subclass that declares a field named like the inherited tracked one
+    # hunt C17/d6: the destructor of an object declared AFTER the tracked qubit (it dies first) still acts on the qubit before the qubit's
+    # own end; one declared BEFORE it dies afterwards, too late to matter
+    for h in HIST:
+        if h == "none":
+            continue
+        db, _ = hist_stmts("this.h", h, prep)
+        mcls = "class Mh { public qubit h; public boolean on = false; public constructor() -> Mh = default; public destructor() -> void { if (this.on) { %s } } }\n" % db
+        progs.append(Prog("measured-by-later-declared-destructor:%s" % h, mcls + "function main() -> void { %s{ @tracked qubit q; Mh m = new Mh(); m.h = q; m.on = true; } echo(\"e\"); }" % pad, [("qubit q", [h])], 1))
+        progs.append(Prog("measured-by-earlier-declared-destructor:%s" % h, mcls + "function main() -> void { %s{ Mh m = new Mh(); @tracked qubit q; m.h = q; m.on = true; } echo(\"e\"); }" % pad, [("qubit q", ["none"]), (None, [h])], 1))
     for h0, h1 in itertools.product(HIST, HIST):
         b0, _ = hist_stmts("a", h0, prep)
         b1, _ = hist_stmts("b", h1, prep)
@@ -370,7 +379,7 @@ def main(tier):
                 base = p.expected
                 p.expected = (lambda b: (lambda outs: b([1] * len(outs))))(base)
         ps = [p for p in ps if not p.name.startswith("generic-two-instantiations")]    # two table names are acceptable there; compared at evaluator level only
-        sel = ps if tier == "thorough" else [p for p in ps if p.name.split(":")[0] in ("main", "for2", "helper2", "field-overwrite", "field-null", "two-sites", "array-measure-all", "block", "untracked", "field-reuse", "local-after-release", "borrow-array-after", "borrow-qubit", "stale-handle-then-tracked", "stale-handle-then-tracked-field", "field-owned-by-dropped-cycle", "inherited-field", "multi-declaration", "alive-at-end-static-held", "alive-at-end-cycle", "alive-at-end-cycle-of-subclass", "dropped-cycle-of-subclass", "tracked-static-field", "same-name-field-in-subclass") or p.name.startswith("array:M")]
+        sel = ps if tier == "thorough" else [p for p in ps if p.name.split(":")[0] in ("main", "for2", "helper2", "field-overwrite", "field-null", "two-sites", "array-measure-all", "block", "untracked", "field-reuse", "local-after-release", "borrow-array-after", "borrow-qubit", "stale-handle-then-tracked", "stale-handle-then-tracked-field", "field-owned-by-dropped-cycle", "inherited-field", "multi-declaration", "alive-at-end-static-held", "measured-by-later-declared-destructor", "measured-by-earlier-declared-destructor", "alive-at-end-cycle", "alive-at-end-cycle-of-subclass", "dropped-cycle-of-subclass", "tracked-static-field", "same-name-field-in-subclass") or p.name.startswith("array:M")]
         modes = [("none", None, None)] + [("flag", n, None) for n in (1, 2, 3)] + [("ann", None, n) for n in (1, 2, 3)] + [("both-eq", 2, 2), ("both-diff", 3, 2), ("both-diff", 1, 3), ("both-diff", 2, 1)]
         echos = [None, "auto", "all", "none"]
         for p in sel:
